@@ -30,6 +30,7 @@ type c01Config struct {
 	Stale    bool   `json:"stale_timeouts"`
 	Mode     string `json:"mode"` // "dev" deviation-bounded search | "bfs" breadth-first to MaxDepth
 	MaxDepth int    `json:"max_depth,omitempty"`
+	Powers   []int64 `json:"powers,omitempty"` // voting powers by key (default 1,1,1,1); the Byzantine validator must hold < 1/3
 }
 
 type dsRepEv struct {
@@ -126,10 +127,17 @@ type c01Setup struct {
 }
 
 func c01Build(r *vr.Report, c c01Config) *c01Setup {
-	w := newDsWorld([]int64{1, 1, 1, 1}, "c01")
+	powers := c.Powers
+	if len(powers) == 0 {
+		powers = []int64{1, 1, 1, 1}
+	}
+	w := newDsWorld(powers, "c01")
 	w.EagerOwn = c.Eager
 	s := &c01Setup{w: w}
 	s.byz = w.proposerOf(int32(c.ByzPos))
+	if v := w.state0.Validators; 3*v.Validators[s.byz].VotingPower >= v.TotalVotingPower() {
+		panic(fmt.Sprintf("c01: configuration %+v gives the faulty validator %d of %d power (not < 1/3)", c, v.Validators[s.byz].VotingPower, v.TotalVotingPower()))
+	}
 	for i := 0; i < w.N; i++ {
 		if i != s.byz {
 			s.correct = append(s.correct, i)
@@ -369,6 +377,21 @@ func c01Configs() []c01Config {
 			}
 		}
 	}
+	// unequal powers with a total that is 2 modulo 3 (the quorum arithmetic's rounding matters): 2,1,1,1; the faulty validator holds 1 of 5
+	skew := []int64{2, 1, 1, 1}
+	sw := newDsWorld(skew, "c01")
+	for _, pos := range []int{0, 1, 2, 3} {
+		v := sw.state0.Validators
+		if 3*v.Validators[sw.proposerOf(int32(pos))].VotingPower >= v.TotalVotingPower() {
+			continue
+		}
+		for _, sp := range [][2]string{{"echo", "split"}, {"silent", "none"}} {
+			if pos > 1 && sp[1] != "none" {
+				sp[1] = "-"
+			}
+			cfgs = append(cfgs, c01Config{ByzPos: pos, Strategy: sp[0], Prop: sp[1], MaxRound: 1, MaxDev: dev - 1, Eager: true, Mode: "dev", Powers: skew})
+		}
+	}
 	if vr.Thorough() {
 		for _, pos := range []int{0, 1, 2} {
 			// free-form Byzantine menu, own messages interleaved, stale timeouts, a third round
@@ -384,13 +407,13 @@ func c01Configs() []c01Config {
 func TestVerifC01(t *testing.T) {
 	r := vr.Start("C01", "agreement", 140*time.Second, 22*time.Minute)
 	defer r.Finish()
-	r.Rule = "explicit-state search over global states of 3 real consensus.State nodes + 1 Byzantine key (4 validators, power 1 each), one height, rounds 0..R; " +
+	r.Rule = "explicit-state search over global states of 3 real consensus.State nodes + 1 Byzantine key (4 validators, power 1 each, or powers 2,1,1,1), one height, rounds 0..R; " +
 		"per configuration (which round the Byzantine validator proposes in, its voting strategy, its proposing strategy) every execution with at most k deviations " +
 		"from the canonical schedule is explored (deviation = deliver another message first, fire a timeout early, hold back / release a delivery, stale timeout, free-form Byzantine delivery); " +
 		"states are deduplicated by canonical key (canonical local states + pending/held deliveries); every state counted is distinct"
 	r.Assume("network adversary delivers/loses/reorders; duplicates are not re-delivered (handlers are idempotent on duplicates: VoteSet/PartSet/Proposal reject them)")
 	r.Assume("tmtime.Now is pinned through an injected clock seam so that signatures and hashes are byte-identical across replays")
-	r.Assume("validator sets larger than 4 and unequal powers are not explored in this part")
+	r.Assume("validator sets larger than 4 are not explored in this part; unequal powers only as 2,1,1,1 (total 5, so that the +2/3 rounding matters)")
 	var rc c01Case
 	if rep, skip := r.ReplayCase(&rc); skip {
 		return
